@@ -19,8 +19,9 @@ def main():
     import torch
     torch.set_num_threads(1)
     import torchphysics
-    if not torchphysics.__file__.startswith("/repo/src"):
-        print("HARNESS-ERROR: torchphysics resolves to %s, not /repo/src" % torchphysics.__file__)
+    src = os.environ.get("VERIF_REPO_SRC", "/repo/src")   # override honoured for tools/sensitivity.py only
+    if not torchphysics.__file__.startswith(src):
+        print("HARNESS-ERROR: torchphysics resolves to %s, not %s" % (torchphysics.__file__, src))
         return 2
     if a.selfcheck or a.prop is None:
         from .selfcheck import selfcheck
